@@ -137,6 +137,22 @@ def gen(tier: str, seed: int) -> list[Case]:
             c = Case(cid=f"c15-siblings{j}-{'tr' if tr else 'no'}", files=files, opts=["--docstyle", ["plaintext", "numpydoc", "google"][j]] + (["-tr"] if tr else []), meta={"gt": gt, "pair": f"s{j}", "tr": tr}, reach=REACH)
             c.src = "src/proj"
             cases.append(c)
+    # the analysed directory ITSELF is called test / tests / docs: given with -s, or the only package below the directory
+    # given with -s.  Every file lies below a directory of such a name: nothing to analyse without the flag, all of it with it
+    for j, (rootname, via_parent) in enumerate([("docs", False), ("tests", True), ("test", True), ("tests", False)][: 3 if tier == "quick" else 4]):
+        files, gt = {}, []
+        base = ["projdir", rootname] if via_parent else [rootname]
+        for k, (dirparts, stem) in enumerate([([], "conf_mod"), (["inner"], "deep_mod"), (["inner", "util"], "deeper_mod")]):
+            tok, cls = f"fn_r{j}_{k}_{stem}", f"ClsR{j}x{k}"
+            for q in range(len(dirparts) + 1):
+                files["/".join(["src", *base, *dirparts[:q], "__init__.py"])] = ""
+            rel = "/".join(["src", *base, *dirparts, stem + ".py"])
+            files[rel] = f"def {tok}(a: int = {k}) -> int:\n    return a\n\n\nclass {cls}:\n    x: int = {k}\n\n    def m(self) -> str: ...\n"
+            gt.append({"rel": rel, "module_id": "/".join([rootname, *dirparts, stem]), "token": tok, "cls": cls, "filtered": True, "proper_package": True})
+        for tr in (False, True):
+            c = Case(cid=f"c15-root-named-{rootname}{'-via-parent' if via_parent else ''}-{'tr' if tr else 'no'}", files=files, opts=["--docstyle", ["plaintext", "numpydoc", "google", "rest"][j]] + (["-tr"] if tr else []), meta={"gt": gt, "pair": f"r{j}", "tr": tr}, reach=REACH)
+            c.src = "src/" + "/".join(base[:-1] if via_parent else base)
+            cases.append(c)
     # packages without ground truth (C01's form library: tests/ and docs/ directories inside, every declaration form
     # outside): only the relation between the two runs is judged
     from ..core import gated_features
@@ -209,7 +225,8 @@ def make_judge(chk: Check):
                     if b.get(k) != a[k]:
                         viols.append(Viol("flag-changes-unaffected-stub", _dirkind(g["rel"]), {"stub": k}))
                     chk.case_ok(None)
-            chk.sample({"pair": pair, "files": [g["rel"] for g in gt][:12], "json_modules_without_flag": sorted(json.loads(a[[k for k in a if k.endswith('.json')][0]])["modules"][i]["id"] for i in range(min(6, len(json.loads(a[[k for k in a if k.endswith('.json')][0]])["modules"]))))}, limit=2)
+            if any(k.endswith(".json") for k in a):
+              chk.sample({"pair": pair, "files": [g["rel"] for g in gt][:12], "json_modules_without_flag": sorted(json.loads(a[[k for k in a if k.endswith('.json')][0]])["modules"][i]["id"] for i in range(min(6, len(json.loads(a[[k for k in a if k.endswith('.json')][0]])["modules"]))))}, limit=2)
             del store[pair]
         return viols
 
